@@ -232,6 +232,103 @@ def _engine_job(job):
 
 
 # ------------------------------------------------------------------------------------------
+# Part A4: the library's OWN concurrent callers (ping loop, refresh loop, facade update, a user command) on the
+# whole stack, around a mode switch - the moment everything wakes at once and contends for the lock
+
+
+def _full_run(ch, window, scenario):
+    from ..rig import Rig
+
+    rig = Rig(ch, window=window)
+    rig.loop.timer_choices_enabled = False
+    waits = []
+    orig = GeckoUdpProtocolHandler.wait_for_response
+
+    async def monitored(handler, protocol):
+        import asyncio
+
+        t0 = rig.loop.time()
+        name = asyncio.current_task().get_name()
+        res = None
+        try:
+            res = await orig(handler, protocol)
+            return res
+        finally:
+            waits.append((name, type(handler).__name__, t0, rig.loop.time(), res, id(protocol)))
+
+    GeckoUdpProtocolHandler.wait_for_response = monitored
+    why = None
+    try:
+        if not rig.connect(60.0):
+            raise core.HarnessError("C06 full stack: no connection")
+        rig.loop.run_for(3.0)
+        fac = rig.facade
+        mark = len(rig.net.sent)
+        del waits[:]
+        rig.loop.timer_choices_enabled = True
+        t_base = rig.loop.time()
+        cmds = []
+        if scenario == "pump-on":
+            cmds = [fac.pumps[0].async_set_mode(fac.pumps[0].modes[-1])]
+        elif scenario == "pump-on-off":
+            cmds = [fac.pumps[0].async_set_mode(fac.pumps[0].modes[-1]), fac.pumps[0].async_set_mode("OFF")]
+        elif scenario == "three-commands":
+            cmds = [fac.pumps[0].async_set_mode(fac.pumps[0].modes[-1]), rig.spa.async_get_watercare(), rig.spa.async_press(16)]
+        tasks = [rig.spawn(c, name=f"HARNESS:cmd{i}") for i, c in enumerate(cmds)]
+        # the spa model is the plain simulator here: echo the pump state so that the facade switches to the active table
+        def echo():
+            acc = rig.spa.accessors
+            a = acc.get("P1")
+            if a is not None:
+                from ..refmodels.bitfield import Field
+                from ..peers import frame
+                f = Field.of(a)
+                nb = f.put_raw(rig.peer.block, len(a.items) - 1 if a.items else 1)
+                rig.peer.set_block(nb)
+                content = b"STATP\x01" + f.pos.to_bytes(2, "big") + nb[f.pos:f.pos + 2]
+                rig.net.inject(rig.spa._transport, frame(SPA_ID, rig.man._client_id, content), SPA_ADDR)
+
+        rig.loop.call_at(rig.loop.time() + 0.35, echo)
+        rig.loop.run_for(9.0)
+        rig.loop.timer_choices_enabled = False
+        for t in tasks:
+            if not t.done():
+                why = ("liveness", f"{t.get_name()} did not complete within 9 s on a healthy link")
+            elif t.exception() is not None:
+                why = ("raised", f"{t.get_name()} raised {t.exception()!r}")
+        hw = sorted(waits, key=lambda w: w[2])
+        for a, b in zip(hw, hw[1:]):
+            if why is None and a[5] == b[5] and b[2] < a[3] - 1e-9:
+                why = ("overlap", f"two requests outstanding on one connection: {a[0]} ({a[1]}) waits "
+                                  f"[{a[2]-t_base:.2f},{a[3]-t_base:.2f}] and {b[0]} ({b[1]}) from {b[2]-t_base:.2f}")
+        if why is None and any(w[4] is False for w in hw):
+            bad = [w for w in hw if w[4] is False][0]
+            why = ("timeout", f"{bad[0]} ({bad[1]}) timed out on a fault-free link")
+        if why is None and (lib.LOG.records or rig.loop.exceptions):
+            why = ("engine", f"errors: {lib.LOG.records[:2]} {rig.loop.exceptions[:2]}")
+        obs = core.digest([(w[0], w[1], round(w[2] - t_base, 2)) for w in hw])
+    finally:
+        GeckoUdpProtocolHandler.wait_for_response = orig
+    rig.exit()
+    rig.close()
+    return why, obs
+
+
+def _full_job(job):
+    (window, scenario), prefix = job
+
+    def body(ch):
+        why, obs = _full_run(ch, window, scenario)
+        viol = []
+        if why:
+            viol.append((f"C06|full-stack|{why[0]}|{scenario}", f"scenario {scenario}, deviations {[(k, c) for k, n, c in ch.trace if c]}: {why[1]}",
+                         {"mode": "full", "window": window, "scenario": scenario, "prefix": [list(p) for p in ch.trace]}))
+        return {"violations": viol, "obs": obs, "end": obs}
+
+    return explore.run_with(prefix, body)
+
+
+# ------------------------------------------------------------------------------------------
 # Part B: gates
 
 GATED = ["async_press", "set_value", "async_get_watercare", "async_set_watercare", "async_get_reminders"]
@@ -367,6 +464,18 @@ def run(ctx):
     ctx.log(f"engine: timer-order deviations <= {tb}: {texecs} executions")
     execs += texecs
 
+    # A4: the library's own callers on the whole stack around a mode switch, timer-order deviations
+    fe = 0
+    for scenario in ("pump-on", "pump-on-off", "three-commands"):
+        st = explore.explore(ctx, _full_job, (0.049, scenario), bound=1 if ctx.quick else 2, label=f"full-stack {scenario}",
+                             max_execs=4000 if ctx.quick else 120000)
+        fe += st["executions"]
+        states.update(st["obs"])
+        explore.fold_stats(ctx, st, prefix="fullstack_")
+    ctx.set("full_stack_executions", fe)
+    ctx.log(f"full stack around a mode switch: {fe} executions")
+    execs += fe
+
     # A3: configured retry count against total loss
     lib.reset_library()
     why, obs = _engine_run(Chooser(), ("version",), (0.0,), 10, 0.0, ("version",), fixed="drop")
@@ -408,6 +517,9 @@ def replay(ctx, data):
         if data.get("noise"):
             plan = plan + (tuple(data["noise"]),)
         res = _engine_job((plan, [tuple(p) for p in data["prefix"]]))
+        ctx.merge_violations(res["violations"])
+    elif m == "full":
+        res = _full_job(((data["window"], data["scenario"]), [tuple(p) for p in data["prefix"]]))
         ctx.merge_violations(res["violations"])
     elif m == "gate":
         v, _ = _gate_job((data["api"], data["offset"], data["queued"]))
